@@ -166,7 +166,9 @@ def obs(g, with_lines=True):
         for t in h.tagnames:
             try:
                 v = h.get(t)
-                hv[t] = "%s:%s" % (type(v).__name__, h.field_to_s(t, True))
+                # (the values of a tag defined on several H lines: as a multiset, their order is
+                #  the arrival order of the lines)
+                hv[t] = "%s:%s" % (type(v).__name__, "\t".join(sorted(h.field_to_s(t, True).split("\t"))))
             except Exception as e:
                 hv[t] = "unobservable:" + type(e).__name__
     except Exception as e:
